@@ -821,6 +821,11 @@ func (r *PipelineRunner) SaveToStore() {
 
 	// We do not need to lock here, the single save loops guarantees non-concurrent saves
 
+	// The runner can be used without a store (no persistence)
+	if r.store == nil {
+		return
+	}
+
 	err := r.store.Save(data)
 	if err != nil {
 		log.
